@@ -202,15 +202,29 @@ def run(ctx):
 
 
 def replay(path):
+    """Re-run the recorded run against the working tree (the task seed and run number are in the run id; the random
+    stream of a task is sequential, so running the task up to that run reproduces it) and validate the new rows."""
     from ..core import Ctx
 
+    aldyenv.setup()
     with open(path) as f:
         case = json.load(f)["case"]
+    rows = case["rows"]
+    tid = rows[0]["tid"] if rows else ""
+    parts = tid.split("/")
+    fresh = False
+    if len(parts) == 3 and parts[0] in ("toy", "gendb") and parts[1].isdigit() and parts[2].isdigit():
+        with aldyenv.quiet_stderr():
+            out = _run_task((int(parts[1]), parts[0], int(parts[2]) + 1))
+        mine = [r for r in out if r["tid"] == tid and "rows" in r]
+        if mine:
+            rows, fresh = mine[0]["rows"], True
+            print("re-run result:", mine[0]["meta"]["result"], "stages:", mine[0]["meta"]["stages"])
     ctx = Ctx("C10", "quick", 0)
-    rej = ctx.trace_batch("trace/PipelineTrace", "trace/PipelineTrace.cfg", case["rows"], label="replay")
+    rej = ctx.trace_batch("trace/PipelineTrace", "trace/PipelineTrace.cfg", rows, label="replay")
     if rej and not rej[0][1].startswith("UNDECIDED"):
         print(f"VIOLATION property=C10 replay={path}")
         print("  rejected:", rej)
         return 1
-    print("replay (recorded rows re-validated): accepted")
+    print("replay (%s): accepted" % ("run repeated on the working tree" if fresh else "recorded rows re-validated"))
     return 0
